@@ -12,7 +12,7 @@ ROUND2 = ("This is a LATER round: earlier rounds already produced the obvious ca
           "combination.\n\n")
 
 
-def prompt(pid, d, wt, out, later):
+def prompt(pid, d, wt, out, later, prev=''):
     return f"""You are helping test a verification harness by seeding a realistic defect into a Python library (mutation testing for research purposes).
 
 The library is ichuang/pyqsp (quantum signal processing phase angles). You have your own scratch git worktree of it at {wt} (a detached checkout). Work ONLY inside {wt} and write your outputs to {out}/. Do NOT read, list or modify anything under /repo or /verif, and do not run git commands against /repo other than `git -C {wt} diff`. There is no network.
@@ -31,7 +31,7 @@ Why the existing tests cannot settle it: {d['why_tests_cant']}
 Relevant files: {', '.join(d['anchors']['files'])}
 Mechanisms: {json.dumps(d['anchors'].get('mechanism', []))}
 
-{ROUND2 if later else ''}Your task: produce TWO different, independent source changes to the library (each a separate small patch against the unchanged worktree) that each BREAK this property while the code still imports/compiles and the existing test suite still gives the same result as before (the same 54 tests pass). Prefer changes that look like plausible developer mistakes or 'optimisations' (off-by-one in an index or window, a sign or inversion slip in one branch, a parity-dependent branch, a threshold changed, a check weakened or bypassed, a scale factor forgotten in one option path, an aliasing/mutation of an argument, a budget term altered, etc.). IMPORTANT: ask for changes that need something specific to manifest - an unusual input, a particular degree/parity/length, a particular value of a random choice, a specific option combination, a multi-step sequence of operations, or two cooperating sites that each look fine alone - NOT ones that ordinary use or any quick smoke test would expose at once. Make the two mutants different in kind (different mechanism / different code site).
+{ROUND2 if later else ''}{prev}Your task: produce TWO different, independent source changes to the library (each a separate small patch against the unchanged worktree) that each BREAK this property while the code still imports/compiles and the existing test suite still gives the same result as before (the same 54 tests pass). Prefer changes that look like plausible developer mistakes or 'optimisations' (off-by-one in an index or window, a sign or inversion slip in one branch, a parity-dependent branch, a threshold changed, a check weakened or bypassed, a scale factor forgotten in one option path, an aliasing/mutation of an argument, a budget term altered, etc.). IMPORTANT: ask for changes that need something specific to manifest - an unusual input, a particular degree/parity/length, a particular value of a random choice, a specific option combination, a multi-step sequence of operations, or two cooperating sites that each look fine alone - NOT ones that ordinary use or any quick smoke test would expose at once. Make the two mutants different in kind (different mechanism / different code site).
 
 For each mutant k in {{1,2}} write:
   {out}/m{{k}}/patch.diff   - unified diff (`git -C {wt} diff` output) against the unchanged tree; must apply with `git apply` at the repo root
@@ -52,7 +52,12 @@ def main():
         if not os.path.exists(wt):
             subprocess.check_call(["git", "-C", "/repo", "worktree", "add", "-q", "--detach", wt, "HEAD"])
         os.makedirs(out, exist_ok=True)
-        open(os.path.join(out, "prompt.txt"), "w").write(prompt(pid, props[pid], wt, out, rnd not in ("", "1")))
+        prev = ""
+        if os.environ.get("PREV_MUTANTS") and os.path.exists(os.environ["PREV_MUTANTS"]):
+            lst = json.load(open(os.environ["PREV_MUTANTS"])).get(pid, [])
+            if lst:
+                prev = "Changes already tried in earlier rounds (do NOT repeat these or close variants of them):\n" + "\n".join("  - " + x for x in lst) + "\n\n"
+        open(os.path.join(out, "prompt.txt"), "w").write(prompt(pid, props[pid], wt, out, rnd not in ("", "1"), prev))
         print(out + "/prompt.txt")
 
 
